@@ -285,7 +285,7 @@ func vh_C20_CurryDefCallerOwnedSlices() {
 	}
 	vfAssert("callers-buffer-untouched", vfAnd(len(buf) == 1, buf[0] == e))
 	if cap(buf) > 1 {
-		vfAssert("callers-buffer-untouched", buf[:2][1] == 0)
+		vfAssert("lemma/callers-spare-capacity-untouched", buf[:2][1] == 0) // not observable through the property
 	}
 	vfReach("end")
 }
